@@ -219,12 +219,28 @@ Theorem C01_refused_never_succeeds : forall c d ess f0,
   tr_sender_ok digest (tr_run digest H deq zcomp zdecomp zl unzl fuel c d ess f0) = false /\
   tr_receiver_ok digest (tr_run digest H deq zcomp zdecomp zl unzl fuel c d ess f0) = false.
 Proof. exact (run_incomplete digest H deq zcomp zdecomp zl unzl deq_refl z_roundtrip z_bytes zl_roundtrip zl_bytes). Qed.
+
+(* The acceptance premise discharged by a condition on the inputs alone ([tr_ready]): clean names
+   (checkFileName accepts them, no NUL, at most 255 bytes), no two entries at one place, parents
+   first, one top-level name per path id, a clean destination path, and nothing in the way at the
+   destination.  Then the transfer ALWAYS completes, for uploads and downloads, protocol 1 to 4,
+   plain and directory mode, overwrite on and off, every frame-size schedule — and the names are
+   the names as sent. *)
+Theorem C01_transfer_ready : forall c d ess f0,
+  tr_table_ok c -> Forall (fun es => bytes_ok (te_data (fst es)) = true) ess ->
+  stat f0 d = SFound Dir -> Forall tr_comp_ok d -> tr_ready c d f0 (map fst ess) ->
+  forall fuel, (tr_fuel digest zcomp c ess <= fuel)%nat ->
+  tr_outcome_ok c d f0 ess (tr_run digest H deq zcomp zdecomp zl unzl fuel c d ess f0) /\
+  ss_names (cf_s digest (tr_run digest H deq zcomp zdecomp zl unzl fuel c d ess f0)) =
+    fold_left tr_add_name (map (tr_key c) (map fst ess)) [].
+Proof. exact (transfer_ready digest H deq zcomp zdecomp zl unzl deq_refl z_roundtrip z_bytes zl_roundtrip zl_bytes). Qed.
 End C01_transfer.
 
 Print Assumptions C01_transfer.
 Print Assumptions C01_transfer_final.
 Print Assumptions C01_success_implies_identical.
 Print Assumptions C01_refused_never_succeeds.
+Print Assumptions C01_transfer_ready.
 
 (* The sequence of message TYPES of a transfer is a word of the grammar
      NUM SUCC (NAME SUCC [SIZE SUCC [COMP] DATA* finish ack* SUCC+ MD5 SUCC])* EXIT       protocol >= 2
@@ -331,3 +347,23 @@ Example C01_refusal_nonvacuous :
                (tr_fuel (list byte) wit_zcomp c ex_tree) c ex_d ex_tree f0 in
    (tr_sender_ok _ cf, tr_receiver_ok _ cf)) = (false, false).
 Proof. cbv zeta. split; vm_compute; reflexivity. Qed.
+
+(* [tr_ready] is met by a small tree and an empty destination directory *)
+Example C01_ready_nonvacuous :
+  let c := mkTrCfg 4 true true true 0 (builtin_table false) true in
+  tr_ready c ex_d [([[100]], Dir)] (map fst ex_tree) /\ Forall tr_comp_ok ex_d.
+Proof.
+  cbv zeta. split; [|repeat constructor].
+  unfold tr_ready. split; [|split; [|split; [|split]]].
+  - repeat constructor; try discriminate; intros; try reflexivity; discriminate.
+  - apply (nodupb_ok path_eqb); [intros a b; apply path_eqb_eq | vm_compute; reflexivity].
+  - intros pre e post Hes Ht. cbv [ex_tree map fst] in Hes.
+    destruct pre as [|p0 [|p1 [|p2 pre]]]; cbn [app] in Hes; inversion Hes; subst; clear Hes.
+    + exfalso. apply Ht. reflexivity.
+    + eexists. split; [left; reflexivity|]. repeat split.
+    + exfalso. apply Ht. reflexivity.
+    + destruct pre; discriminate.
+  - intros e e' [<-|[<-|[<-|[]]]] [<-|[<-|[<-|[]]]]; cbn; split; intro Hx; try reflexivity; discriminate.
+  - intros e [<-|[<-|[<-|[]]]]; reflexivity.
+Qed.
+
